@@ -32,7 +32,7 @@ PROPS = {
         "assumptions": [],
         "rule": "outstanding-ID sets {empty, one, several, containing \"\", near-miss} x InResponseTo {match, other, empty, prefix, extension} at response "
                 "and confirmation level x AllowIDPInitiated x custom validator x entry points ParseXMLResponse / ParseResponse(POST) / "
-                "ParseXMLArtifactResponse / ParseResponse(SAMLart via a RoundTripper that answers the real ArtifactResolve)",
+                "ParseXMLArtifactResponse / ParseResponse(SAMLart via a RoundTripper that answers the real ArtifactResolve); since the seeded-change rounds: shape lattice: every instant x boundary position x message shapes (Response without Issuer, several assertions / confirmations, non-bearer confirmations); since the seeded-change rounds: the single-perturbation lattice crossed with AllowIDPInitiated; other-identifier audiences; relative received-at URLs; nested status codes; since the seeded-change rounds: middleware scenario: unsolicited / foreign / extended InResponseTo while flows are pending, a session token presented as tracking cookie",
     },
 }
 
@@ -44,7 +44,7 @@ PROPS["C09"] = {
     "rule": "schema-valid responses with every subset of 8 optional parts removed x 4 signing layouts, valid IdP signature re-applied (struct-level model); "
             "byte-level mutation (bit flips, deletions, duplications, truncation, markup tokens, element drop/duplicate) of the repository's fixtures through 8 entry points "
             "(ParseXMLResponse, ParseResponse, ParseXMLArtifactResponse, logout form/redirect, NewIdpAuthnRequest+Validate, samlsp.ParseMetadata, samlidp PUT /services) with recover and a 10 s watchdog; "
-            "deflate bombs of 1 KB..100 MB through both inflating entry points with allocation measurement; 11 artifact-resolver fault modes; 17 key-descriptor layouts through the IdP",
+            "deflate bombs of 1 KB..100 MB through both inflating entry points with allocation measurement; 11 artifact-resolver fault modes; 17 key-descriptor layouts through the IdP; since the seeded-change rounds: ciphertexts that yield no assertion element (undecryptable in eight ways, element-free plaintext) under signed/unsigned Responses through xml and POST entry points; resolver answers framed with Content-Length -1 / 0 / too small / 2 GiB; deflated payloads through the POST-binding entry points; structure-aware metadata (attribute subsets x nesting x 4 entry points); fingerprint totality cases",
 }
 
 PROPS["C15"] = {
@@ -52,7 +52,7 @@ PROPS["C15"] = {
     "trusted_base": ["modelled, not verified: Go's regexp engine (the two duration regexps are replaced by a deterministic recogniser, tied by correspondence), "
                      "strconv; Go's time package is an implementation of the proleptic Gregorian calendar, which the model computes by the era / day-of-era decomposition "
                      "(the inverse and the validity of every computed date are proved: one kernel computation over the 146097 days of an era, 366 days of a year)",
-                     "metadata marshal/unmarshal symmetry (encoding/xml over the alias structs) is NOT modelled: generated and library-published EntityDescriptor values are checked by the direct oracle only (testing)"],
+                     "metadata: the fields C15 names (entity ID, validity instant, cache duration, endpoints, key descriptors) are modelled through write/read (Model/Metadata.lean, tied by mdnorm); encoding/xml's traversal of the alias structs and every other part of a descriptor are NOT modelled and are checked by the direct oracles only (testing)"],
     "assumptions": ["Go int64 arithmetic wraps modulo 2^64 (language specification)",
                     "instants: the rounded instant lies in a year of at most four digits (the excluded half millisecond at the end of 9999 is the known finding c15-year-10000-rounding, with a counterexample theorem)"],
     "rule": "durations: boundary classes exhaustively (each sub-second digit count, carries at 60 s / 60 min, negatives, +-1 around every unit, MinInt64/MaxInt64) "
@@ -60,7 +60,7 @@ PROPS["C15"] = {
             "instants: 31 years around era/century/leap borders x 9 month-days x 3 clock times x 12 nanosecond values around the rounding boundary + random instants in years 1..9999 with random zones (MarshalText vs model, read-back oracle); "
             "instant strings: 47 listed valid/invalid forms + generated forms in 7 lexical styles with single-position mutations (UnmarshalText vs model); "
             "metadata: generated EntityDescriptor values (SP/IdP descriptors, endpoints incl. unknown bindings, key descriptors, validity, cache duration, organisation) and the library's own sp.Metadata()/idp.Metadata() "
-            "through two marshal/unmarshal generations (direct oracle: fixed point, preservation, equality)",
+            "through two marshal/unmarshal generations (direct oracle: fixed point, preservation, equality); since the seeded-change rounds: grammar-generated duration strings with the value the generator assembled them from (leading zeros up to 0000); EntitiesDescriptor aggregates (nested, by value and by pointer); mdnorm: the model's normal form against xml.Unmarshal(xml.Marshal(ed))",
 }
 
 XMLENC_TB = ["modelled, not verified: AES/DES/RSA/GCM primitives (abstract Block/Aead/rsaDec parameters of the theorems; in the correspondence they are "
@@ -74,7 +74,7 @@ PROPS["C10"] = {
                     "the reference uses the same hash for OAEP's MGF as Go's rsa.EncryptOAEP does"],
     "rule": "toy cipher byte-exact for every plaintext length 0..4 blocks+1 (block sizes 8, 16) + random; every offered block cipher x direct key and x "
             "every key transport/digest, plaintext lengths 0..4 blocks+1, Encrypt -> harness's reading of the element -> real registry dispatch vs model "
-            "with stdlib-computed ledger; reference interop both directions; AES-GCM decrypt of reference values and the GCM encryption known finding",
+            "with stdlib-computed ledger; reference interop both directions; AES-GCM decrypt of reference values and the GCM encryption known finding; since the seeded-change rounds: decrypt hold-and-compare sequence across the CBC ciphers; reference-made GCM values at every length 0..65 with every kind of final byte at block-aligned lengths",
 }
 PROPS["C11"] = {
     "modules": ["SamlVerif.Props.C11", "SamlVerif.Props.PureXmlenc"],
@@ -82,7 +82,7 @@ PROPS["C11"] = {
     "assumptions": ["AEAD authenticity (Aead.Good.auth) for the GCM tamper theorem"],
     "rule": "cipher-value lengths 0..4 blocks+1 exhaustively for the toy cipher and every registered algorithm; wrong key sizes and Go key types; "
             "every single-byte flip and every truncation of a valid GCM value; structure-aware mutation (0-3 dimensions) of valid two-layer elements "
-            "(algorithm/digest identifiers, certificates, cipher values absent/bad base64/truncated/extended/flipped, nested or removed EncryptedKey)",
+            "(algorithm/digest identifiers, certificates, cipher values absent/bad base64/truncated/extended/flipped, nested or removed EncryptedKey); since the seeded-change rounds: relabelled messages (encrypted under R, renamed to another AES size, key wrapped by OAEP / PKCS1v15); KeyInfo written with prefixes ds / dsig / x / default namespace x every kind of embedded certificate",
 }
 
 PROPS["C05"] = {
@@ -92,7 +92,7 @@ PROPS["C05"] = {
     "assumptions": ["freshness is read one-sidedly (now <= IssueInstant + MaxIssueDelay), as the anchored code words it"],
     "rule": "random requests over present/absent/forged Issuer, Destination, Version, IssueInstant (freshness boundary lattice), ACS URL and index (incl. "
             "non-canonical index spellings) against registries with 0-3 SPSSODescriptors x 0-4 endpoints (bindings POST/Redirect/Artifact/unknown, duplicate "
-            "and negative indices, isDefault none/true/false, duplicate locations), registry errors; GET-deflate and POST; IdP-initiated launches through ServeIDPInitiated",
+            "and negative indices, isDefault none/true/false, duplicate locations), registry errors; GET-deflate and POST; IdP-initiated launches through ServeIDPInitiated; since the seeded-change rounds: 24 near misses of the SSO URL as Destination alone on a valid request (port, query, fragment, userinfo, escapes, case, dot segments); completeness oracle for IdP-initiated launches",
 }
 
 PROPS["C18"] = {
@@ -100,7 +100,7 @@ PROPS["C18"] = {
     "trusted_base": SP_TB + ["the validator reads time.Now(), not the library clock: freshness cases keep a 5 s guard band around the boundary"],
     "assumptions": ["inflate(deflate b) = b for the encodings-agree theorem"],
     "rule": "both encodings x 4 entry points x signature transformations (valid, none, untrusted key, edited after signing, relocated, duplicated, other trusted-looking key) "
-            "x decoding failures (base64, XML, round-trip validator, no root, other root element, bad deflate) x {correct, wrong, near-miss, absent} Destination/Issuer/Status x IssueInstant around the boundary",
+            "x decoding failures (base64, XML, round-trip validator, no root, other root element, bad deflate) x {correct, wrong, near-miss, absent} Destination/Issuer/Status x IssueInstant around the boundary; since the seeded-change rounds: nested status codes; IdP key rotation on one kept ServiceProvider (metadata replaced, same entity ID); fingerprint pinning and two-certificate KeyInfo; the SP's own other URLs as wrong Destinations",
 }
 
 BIND_TB = ["modelled, not verified: compress/flate (abstract; exercised end to end by the harness), url.Parse / URL.String on the IdP endpoint "
@@ -108,11 +108,11 @@ BIND_TB = ["modelled, not verified: compress/flate (abstract; exercised end to e
 PROPS["C12"] = {
     "modules": ["SamlVerif.Props.C12", "SamlVerif.Props.PureSaml"],
     "trusted_base": BIND_TB,
-    "assumptions": ["inflate(deflate b) = b", "POST-form fields are covered by C14's escaper theorems"],
+    "assumptions": ["inflate(deflate b) = b", "POST forms: C12_post_form is stated over the template skeleton that C14_form_skeletons / C12_post_templates tie to the source"],
     "rule": "24 fixed hostile relay states/name IDs (& = # + % ; ? blanks quotes NUL-free controls, non-ASCII, >80 bytes) x 4 IdP endpoints (with/without query) "
             "x AuthnRequest/LogoutRequest/LogoutResponse redirects + random strings over a metacharacter alphabet; emitted RawQuery compared byte for byte with the model; "
             "the real IdP parses every AuthnRequest; codec models (QueryEscape/Unescape, ParseQuery, base64 incl. mutated encodings) against net/url and encoding/base64; "
-            "message IDs under a recording RandReader",
+            "message IDs under a recording RandReader; since the seeded-change rounds: POST forms: sequences of 1-6 creations on one SP with every form read after the last creation; hostile strings (]]> CR LF TAB < & quotes) in attribute positions (InResponseTo, entity IDs, endpoint queries) x three message kinds x both bindings; short-read RandReader",
 }
 PROPS["C13"] = {
     "modules": ["SamlVerif.Props.C13", "SamlVerif.Props.PureSaml"],
@@ -120,7 +120,7 @@ PROPS["C13"] = {
                               "crypto/ecdsa directly for the redirect binding and a fresh goxmldsig validation context for XML signatures"],
     "assumptions": [],
     "rule": "10 method URIs (8 known + 2 unknown) x RSA 1024/2048/3072/4096 and ECDSA P-256/384/521 keys x endpoints with/without query x relay states, redirect binding; "
-            "POST AuthnRequest, POST/redirect logout messages and ArtifactResolve verified as enveloped signatures; method/key table",
+            "POST AuthnRequest, POST/redirect logout messages and ArtifactResolve verified as enveloped signatures; method/key table; since the seeded-change rounds: key / method rotation on one SP value, each message verified under the certificate Metadata() publishes at that moment; ArtifactResolve as it arrives at the IdP through the real ParseResponse(SAMLart) with a transport that lets the process serialise other XML first; IdPs without SLO endpoints",
 }
 
 PROPS["C14"] = {
@@ -132,7 +132,7 @@ PROPS["C14"] = {
     "assumptions": [],
     "rule": "hostile strings (HTML/JS metacharacters, quotes, NUL, U+2028/9, template delimiters, tag/comment/CDATA look-alikes) and hostile URLs (javascript:, data:, vbscript:, case/blank/tab tricks, relative, malformed) "
             "in every interpolated position of the SP request/logout forms, IdP response form, samlidp login form and middleware POST page; rendered bytes compared with the model's rendering of the extracted template; "
-            "metadata Location/ResponseLocation x known and unknown bindings x every endpoint-bearing element through xml.Unmarshal and samlsp.ParseMetadata",
+            "metadata Location/ResponseLocation x known and unknown bindings x every endpoint-bearing element through xml.Unmarshal and samlsp.ParseMetadata; since the seeded-change rounds: Location x ResponseLocation for Endpoint and IndexedEndpoint with a direct oracle; form-stability sequence over the three SP renderers; regenerated template-data types",
 }
 
 PROPS["C16"] = {
@@ -143,7 +143,7 @@ PROPS["C16"] = {
     "rule": "valid session tokens x clock lattice around iat/nbf/exp, attribute gates (present/absent/near-miss values), no cookie, malformed/truncated/extended strings, payload or signature altered without re-signing, "
             "algorithm substitution (none, HS256 keyed with the public key PEM, RS512, other key family), other keys, correctly signed tokens with edited claims (audience/issuer/markers/time claims), "
             "tracking tokens of the same SP, cross-deployment replay with a shared key; RSA and ECDSA deployments with custom lifetime and cookie name; tokens minted by the real codec from random assertions "
-            "(friendly names, repeated attributes, several statements, absent Subject/NameID) — observed through RequireAccount/RequireAttribute",
+            "(friendly names, repeated attributes, several statements, absent Subject/NameID) — observed through RequireAccount/RequireAttribute; since the seeded-change rounds: one handler chain per gate kept for the life of the deployment and a gate sequence (privileged, then unprivileged sessions, no cookie); deployments differing only in the path of their URL",
 }
 
 PROPS["C17"] = {
@@ -153,7 +153,7 @@ PROPS["C17"] = {
     "assumptions": ["browser jars hold at most one cookie per name (hypothesis of the completion theorems; the refusal/binding theorems hold for arbitrary cookie lists)"],
     "rule": "histories over 1-3 (thorough: 1-5) concurrent flows in one browser, redirect and POST request bindings, http and https deployments: every flow start, then per flow 12 adversarial deliveries "
             "(no cookies, only other flows' cookies, renamed, tampered, forged by another key, session token as tracker, foreign InResponseTo, invalid response, no RelayState, URL as RelayState, other flow's RelayState), "
-            "then faithful completion in a random order with clock moves around the tracking lifetime and replays; each ACS reply (status, Location, session cookie and flags, cleared cookies) compared with the model",
+            "then faithful completion in a random order with clock moves around the tracking lifetime and replays; each ACS reply (status, Location, session cookie and flags, cleared cookies) compared with the model; since the seeded-change rounds: jars that hold the authentic cookies plus a bad cookie named by RelayState (tampered / renamed / forged / session token / garbage / expired); unsolicited responses while flows are pending",
 }
 
 PROPS["C19"] = {
@@ -164,7 +164,7 @@ PROPS["C19"] = {
                     "the backing store does not answer not-found for a key it holds (hypothesis of the registry/restart theorems only; the authentication theorems hold for every fault pattern)"],
     "rule": "random histories of 45 (thorough: 120) requests over the full alphabet (users with/without password, services overwritten under other entity IDs and without POST ACS, shortcuts to registered/unregistered SPs, "
             "logins, SSO by redirect and by POST with credentials, IdP-initiated launches, session get/delete, clock advances past the session lifetime, restarts at random positions) with I/O-error and not-found faults "
-            "injected into individual store calls; every reply (status, kind, user/profile/entity/relay of an issued assertion, session cookie) compared with the model's",
+            "injected into individual store calls; every reply (status, kind, user/profile/entity/relay of an issued assertion, session cookie) compared with the model's; since the seeded-change rounds: PUT /users bodies carrying a name (same / another user's); the empty password and a deterministic password-replacement prefix; oracles: GET /users/<id> returns user <id>, a form login as u yields an assertion about u, the response is addressed to the service the request / shortcut was for, logins need the current password; the duplicate-entity restart witness (known finding)",
 }
 
 PROPS["C20"] = {
@@ -177,7 +177,7 @@ PROPS["C20"] = {
     "assumptions": ["fair scheduling for 'every request completes'"],
     "rule": "19 handler invocations against a recording store (subsequence check against the extracted programs); the model's deadlock witness replayed on the real server with a scheduling store (3 trials); "
             "40 (thorough: 600) recorded concurrent histories of 2-4 clients x 6 store operations checked with porcupine against the key-value specification; 4 goroutines x all handlers free-running stress, "
-            "repeated under the race detector",
+            "repeated under the race detector; since the seeded-change rounds: stall schedules: every handler stalled while its body is read / inside each of its store calls, a registry writer started, the handler resumed (58 trials)",
 }
 
 IDP_TB = ["modelled, not verified: XML serialisation of the struct (schema.go Element builders), goxmldsig signing, RSA-OAEP/AES-CBC encryption; "
@@ -193,7 +193,7 @@ PROPS["C06"] = {
     "rule": "registries of 1-3 SPs x 1-2 SPSSO descriptors x 1-4 endpoints (POST/Redirect/Artifact/unknown, colliding locations and indexes, isDefault) x 0-3 key descriptors x 0-2 attribute consuming services "
             "(20 requested names incl. punctuation/case variants, 4 name formats); requests selecting the ACS by URL / index / both / default, IssueInstant placed +-2 ms around receipt-skew and receipt-delay; "
             "IdP-initiated launches; RSA key or opaque crypto.Signer x 5 signature methods x intermediates; MaxIssueDelay/MaxClockSkew incl. zero; a stepping TimeNow separates receipt from issuance; "
-            "every emitted form decoded and compared field by field with the model",
+            "every emitted form decoded and compared field by field with the model; since the seeded-change rounds: RequestedAttribute entries with listed values; requests whose IssueInstant carries a zone offset",
 }
 
 PROPS["C07"] = {
@@ -205,7 +205,7 @@ PROPS["C07"] = {
     "rule": "writer: etree in its three modes on generated strings (45 hostile pieces, arbitrary code points incl. non-characters) vs model escape; reader: encoding/xml on 45 pieces of references "
             "(valid, unterminated, overflowing, surrogate, out-of-range), raw CR/CRLF, ]]>, illegal characters in text and attribute position vs model scan; "
             "round trips: real SP (entity ID set/unset, RSA/ECDSA/no key, redirect/POST, signed/unsigned) -> real IdP (5 methods, key/signer) registered with the SP's published metadata -> real SP configured from the IdP's published metadata, "
-            "sessions over hostile strings; every hostile piece alone in NameID / attribute value / group, encrypted and not",
+            "sessions over hostile strings; every hostile piece alone in NameID / attribute value / group, encrypted and not; since the seeded-change rounds: writer-stability sequence through the hook (bytes returned earlier must not change)",
 }
 
 PROPS["C08"] = {
@@ -217,7 +217,7 @@ PROPS["C08"] = {
             "all ordered pairs of an 8-descriptor basis, plus random layouts of 0-3 descriptors; per layout a real response is served for a session of unique SECRET-tagged strings, "
             "the emitted bytes are scanned for every session string in raw / XML / HTML / URL-escaped / base64 form, decrypted with the SP key and tried with three foreign keys; "
             "runs of 2-6 encrypted responses under a counting RandReader locate each content key and IV in the stream (vs model layout); key/IV distinctness under crypto/rand; "
-            "SP side: responses with assertions encrypted by the IdP, by an attacker, to a foreign key, signed/unsigned at both levels with perturbed conditions vs the struct-level model",
+            "SP side: responses with assertions encrypted by the IdP, by an attacker, to a foreign key, signed/unsigned at both levels with perturbed conditions vs the struct-level model; since the seeded-change rounds: malformed content cipher values and element-free plaintexts under an intact key (b-* / b-noroot-* / b-key-*); two role descriptors with different key layouts; the same IdpAuthnRequest asked three times after a failure",
 }
 
 PROPS["C01"] = {
@@ -237,7 +237,7 @@ PROPS["C01"] = {
             "signed Response wrapped in an evil Response with or without its Signature copied up, signatures stripped or duplicated, NameID edited, comments / CDATA / processing instructions / white space inserted, ID and Reference URI edits, "
             "KeyInfo removed / attacker certificate / second certificate / KeyValue only, foreign-namespace Signature naming the trusted certificate, foreign-namespace Assertion, prefix renamed or re-declared, unused and undeclared prefixes, "
             "nested Signature inside signed content, re-encryption of the evil or the original assertion to the SP, Conditions dropped, evil assertion signed by the attacker); every single operation on all six valid bases, "
-            "(thorough: every ordered pair); the real ParseXMLResponse decides the bytes, the model decides the dumped tree + ledger + views",
+            "(thorough: every ordered pair); the real ParseXMLResponse decides the bytes, the model decides the dumped tree + ledger + views; since the seeded-change rounds: one ServiceProvider value across in-place trust changes (stateful sequences); genuine and same-length forged messages judged one at a time and then by eight goroutines on one ServiceProvider (concurrentParses)",
 }
 
 # ---- per-property notes on the depth actually reached (shown in MANIFEST.json) ----
